@@ -215,6 +215,7 @@ def run(run):
         box[k] = (-1, 1)
     box['sd'] = (0.1, 10)
     rep = enga.AReport(run, box=box)
+    rep.definedness = True
     run.assume('exact real arithmetic; |lat|,|pitch| <= 85 deg; error vector scaled by the formal parameter eps, H compared with the eps^1 coefficient of z(pva) - z(correct_pva(pva, eps x))',
                'the measured position equals the state position at order 0 (measurement and state are both within O(eps) of the truth): with an unrelated measured position the mean-latitude radii of compute_lla_difference contribute residual x error cross terms that are second order in the filter\'s sense',
                'measurement tables are real pandas frames with a concrete time index {1.0}; membership of a symbolic time is decided in C09/C10\'s stand-in contract',
